@@ -7,7 +7,7 @@ from common import guard, ints
 
 META = {
     "property": "C16",
-    "proof_modules": ["PyodaProofs.C16", "PyodaProofs.C16Irregular", "PyodaProofs.C16Dates"],
+    "proof_modules": ["PyodaProofs.C16", "PyodaProofs.C16Irregular", "PyodaProofs.C16Dates", "PyodaProofs.GenAgreeC16"],
     "drivers": ["drv_weekyear"],
     "theorems": [
         "Pyoda.C16.dayOfWeek_eq", "Pyoda.C16.weekYearStart_aligned", "Pyoda.C16.weekYearStart_window",
@@ -32,8 +32,33 @@ META = {
         "Pyoda.C16.weekYearIsCalendarYear_firstDay", "Pyoda.C16.weekYearIsCalendarYear_irregular_fails",
         "Pyoda.C16.weeksSpan_irregular_fails", "Pyoda.C16.weekYearContains_irregular_fails",
         "Pyoda.C16.weeksAdvance_irregular_fails", "Pyoda.C16.weekBoundary_irregular_fails",
+        # agreement of the definitions generated from the Python source (tools/py2lean.py) with the model
+        "Pyoda.GenAgree.C16.gen_checkNotNullCal_eq", "Pyoda.GenAgree.C16.gen_CalendarSystem_minYear_eq",
+        "Pyoda.GenAgree.C16.gen_CalendarSystem_maxYear_eq", "Pyoda.GenAgree.C16.gen_CalendarSystem_minDays_eq",
+        "Pyoda.GenAgree.C16.gen_CalendarSystem_maxDays_eq", "Pyoda.GenAgree.C16.gen_CalendarSystem_calculator_eq",
+        "Pyoda.GenAgree.C16.gen_CalendarSystem_getDaysSinceEpoch_eq",
+        "Pyoda.GenAgree.C16.gen_CalendarSystem_getDayOfWeek_eq", "Pyoda.GenAgree.C16.gen_LocalDate_ofYmdc_eq",
+        "Pyoda.GenAgree.C16.gen_LocalDate_calendarOrdinal_eq", "Pyoda.GenAgree.C16.gen_LocalDate_calendar_eq",
+        "Pyoda.GenAgree.C16.gen_LocalDate_year_eq", "Pyoda.GenAgree.C16.gen_LocalDate_yearMonthDay_eq",
+        "Pyoda.GenAgree.C16.gen_LocalDate_daysSinceEpoch_eq", "Pyoda.GenAgree.C16.gen_LocalDate_dayOfWeek_eq",
+        "Pyoda.GenAgree.C16.gen_LocalDate_dayOfWeek_error", "Pyoda.GenAgree.C16.gen_LocalDate_plusDays_eq",
+        "Pyoda.GenAgree.C16.gen_LocalDate_next_eq", "Pyoda.GenAgree.C16.gen_LocalDate_previous_eq",
+        "Pyoda.GenAgree.C16.gen_DateAdjusters_next_eq", "Pyoda.GenAgree.C16.gen_DateAdjusters_previous_eq",
+        "Pyoda.GenAgree.C16.gen_DateAdjusters_nextOrSame_eq",
+        "Pyoda.GenAgree.C16.gen_DateAdjusters_previousOrSame_eq",
+        "Pyoda.GenAgree.C16.gen_LocalDate_fromYearMonthWeekAndDay_eq",
+        "Pyoda.GenAgree.C16.gen_LocalDate_fromYearMonthWeekAndDay_error",
+        "Pyoda.GenAgree.C16.gen_Rule_weekYearStart_eq", "Pyoda.GenAgree.C16.gen_Rule_validateWeekYear_eq",
+        "Pyoda.GenAgree.C16.gen_Rule_getWeeksInWeekYear_eq", "Pyoda.GenAgree.C16.gen_Rule_getWeekYear_eq",
+        "Pyoda.GenAgree.C16.gen_Rule_getWeekYear_irregular", "Pyoda.GenAgree.C16.gen_Rule_getWeekOfWeekYear_eq",
+        "Pyoda.GenAgree.C16.gen_Rule_getLocalDate_eq",
     ],
     "trusted_base": [
+        "translator tie (tools/py2lean.py): _SimpleWeekYearRule (all six members, regular and irregular), LocalDate.next/previous/from_year_month_week_and_day/day_of_week/year/calendar, the four weekday DateAdjusters and the CalendarSystem accessors they use are re-translated from the current source into "
+        "lean/PyodaGen/C16.lean on every run and proved equal to the hand-written model (PyodaProofs/GenAgreeC16.lean). Trusted there: the translator's semantics (validated against CPython by the self-test of C03), "
+        "objects as records (lean/PyodaGen/Objects.lean: CalendarSystem = calculator + four Final range attributes, the calculator's virtual members = function-valued fields, LocalDate = packed date), "
+        "the hand-mapped packing helpers (_YearMonthDayCalendar._to_year_month_day, _YearMonthDay._with_calendar, CalendarSystem._for_ordinal: the calendar ordinal is represented by the calendar it denotes; lossless packing is C12, one object per ordinal C13), "
+        "a function returning a lambda read as its uncurried form, _DatePeriodFields._days_field.add / the ISO LocalDate constructor / CalendarSystem.iso.get_days_in_month as abstract callees (C09, C01), and the Decimal-domain bound 10^27 on the operands of _towards_zero_division",
         "the calendar enters the theorems as an arbitrary year table with start(y+1) = start(y) + len(y), len(y) >= 7 (C01 establishes this for every calendar); the harness reads the table entries from the code per op",
         "ISO rule = isocalendar: iso_matches_isocalendar_gregorian is about the Lean transcription of Lib/_pydatetime.isocalendar, which is tied to the real CPython by the correspondence op wy.pyiso (and the oracle compares the code with date.isocalendar() directly)",
         "get_local_date theorems take the calendar-year lookup of the result (LocalDate.year of the constructed date) as a function yo with YearOf c yo (it returns the year whose table span contains the day; yearOf_exists shows the hypothesis is satisfiable for every table); that the code's year is that year is C01",
